@@ -1,4 +1,64 @@
-import AffVerif.Model.Reduce
-/-! # C11 (theorems added below as they are proved) -/
+import AffVerif.Props.C03
+/-!
+# C11 — pruning is fail-safe when the LP solver misbehaves
+
+The listed faults (solver error, "unbounded", a perturbed or far-off "optimal" point) never fabricate an
+`Infeasible` answer.  The theorems quantify over *every* oracle behaviour at *every* call — `lp` and `mirror`
+are arbitrary state-threaded functions; the only hypothesis is that an `infeasible` answer is right
+(`InfeasibleSound`), which the faults do not touch.  No fault plan has to be enumerated.
+-/
+set_option linter.unusedSectionVars false
+set_option linter.unusedVariables false
 namespace AV
+variable {α : Type} [Field α] [LinearOrder α] [IsStrictOrderedRing α]
+
+/-- a backend that misbehaves in the listed ways at arbitrary calls: it answers like `base`, except that at
+    the calls selected by `faulty` it returns whatever `garbage` says — as long as that is not `infeasible` -/
+def faultyOracle {σ : Type} (base : LPOracle σ α) (faulty : σ → Aff α → List α → Bool)
+    (garbage : σ → Aff α → List α → LPAnswer α) : LPOracle σ α :=
+  fun s p c =>
+    if faulty s p c then
+      (match garbage s p c with
+       | .infeasible => .error      -- the fault kinds of C11 never produce `infeasible`
+       | a => a, (base s p c).2)
+    else base s p c
+
+/-- faults of the listed kinds keep the one property pruning relies on -/
+theorem C11_faults_keep_infeasible_sound {σ : Type} (base : LPOracle σ α) (hb : InfeasibleSound base)
+    (faulty : σ → Aff α → List α → Bool) (garbage : σ → Aff α → List α → LPAnswer α) :
+    InfeasibleSound (faultyOracle base faulty garbage) := by
+  intro s p c h
+  unfold faultyOracle at h
+  by_cases hf : faulty s p c = true
+  · simp only [hf, if_true] at h
+    cases hg : garbage s p c <;> simp [hg] at h
+  · simp only [hf, Bool.false_eq_true, if_false] at h
+    exact hb s p c h
+
+/-- `infeasible_elimination` under arbitrary solver misbehaviour: the represented function is unchanged -/
+theorem C11_elim_failsafe {σ : Type} (tol : α) (base : LPOracle σ α) (hb : InfeasibleSound base)
+    (faulty : σ → Aff α → List α → Bool) (garbage : σ → Aff α → List α → LPAnswer α)
+    (mirror : MirrorOracle σ α) (n m : Nat) (t : PT α) (s : σ) (x : List α)
+    (ht : PT.Shaped 2 n m t) (hc : PT.InfSound [] t) :
+    PT.eval (infeasibleElimination tol ⟨faultyOracle base faulty garbage, mirror⟩ n t s).1 x = PT.eval t x :=
+  C03_elim_sound tol _ (C11_faults_keep_infeasible_sound base hb faulty garbage) n m t s x ht hc
+
+/-- pruned composition under arbitrary solver misbehaviour: still `g ∘ f` -/
+theorem C11_compose_failsafe {σ : Type} (tol : α) (base : LPOracle σ α) (hb : InfeasibleSound base)
+    (faulty : σ → Aff α → List α → Bool) (garbage : σ → Aff α → List α → LPAnswer α)
+    (f g : PT α) (s : σ) (c : Nat) (x : List α) (n m p : Nat)
+    (hx : x.length = n) (hf : PT.Shaped 2 n m f) (hg : PT.Shaped 2 m p g) (hc : PT.InfSound [] f) :
+    PT.eval (PT.composeP Schema.compose (isEdgeFeasible tol (faultyOracle base faulty garbage)) n [] f g s c).1 x
+      = (PT.eval f x).bind (PT.eval g) :=
+  C03_compose_prune tol _ (C11_faults_keep_infeasible_sound base hb faulty garbage) f g s c x n m p hx hf hg hc
+
+/-- no unsound verdict is cached: a node is marked infeasible only for an empty closed path polytope, whatever
+    the oracle does elsewhere -/
+theorem C11_no_unsound_infeasible {σ : Type} (tol : α) (base : LPOracle σ α) (hb : InfeasibleSound base)
+    (faulty : σ → Aff α → List α → Bool) (garbage : σ → Aff α → List α → LPAnswer α) (mirror : MirrorOracle σ α)
+    (s : σ) (node : Nat) (pst : NState α) (path : List (Aff α)) (hyper : Aff α) (n : Nat)
+    (h : (decideNode tol ⟨faultyOracle base faulty garbage, mirror⟩ s node pst path hyper n).1.isInfeasible = true) :
+    ¬ ∃ x, InPath (path ++ [hyper]) x :=
+  decideNode_sound tol _ (C11_faults_keep_infeasible_sound base hb faulty garbage) s node pst path hyper n h
+
 end AV
